@@ -127,7 +127,7 @@ def run(ctx):
                         continue
                     # "concatenated in order" through the library's own np.concatenate as well (lazy chunks concatenate at buffer level);
                     # the chunks were read successfully, so a failure here is not excused by a small chunk size
-                    if 2 <= len(held) <= 8 and (k % 3 == 0 or len(held) >= 3):
+                    if 2 <= len(held) <= 8 and (k % 3 == 0 or (len(held) >= 3 and k % 2 == 0) or not ctx.quick):
                         ctx.count("np_concatenate_of_chunks")
                         try:
                             # fresh chunks: nothing parsed (and cached) on the lazy objects before they are concatenated
@@ -177,11 +177,17 @@ def run(ctx):
                 for fnl in (True, False):
                     style = {"eol": eol, "final_newline": fnl, "tags": False, "wrap": gen.choice([1, 2, 3, 5]) if fname == "fastaw" else None}
                     small.append((fname, n, style, gen.randrange(2 ** 30)))
-    for fname, n, style, s in ctx.mine(small):
+    for fi, (fname, n, style, s) in enumerate(small):
         fc = make_file(fname, random.Random(s), n, "tiny", style)
         size = len(fc["data"])
+        D = size - len(fc["header"])
+        # the header is consumed line by line before chunking starts: every k up to the data section's size + 2, plus the sizes around the whole file
+        ks_all = sorted(set(range(1, D + 3)) | {size, size + 1, size + 2}) if ctx.quick else list(range(1, size + 3))
+        ks_mine = [k for k in ks_all if (k + fi) % ctx.nshards == ctx.shard]      # every file in every shard, chunk sizes dealt round-robin (balanced load)
+        if not ks_mine:
+            continue
         def case(_):
-            check_file(fc, list(range(1, size + 3)), ["open", "open-gz"] if ctx.quick else entries_all, "exhaustive-k")
+            check_file(fc, ks_mine, ["open", "open-gz"] if ctx.quick else entries_all, "exhaustive-k")
         ctx.run_case(case, {"fmt": fname, "n": n, "style": style, "seed": s})
 
     # ---- sampled larger files, hostile k ---------------------------------------------------------
